@@ -50,7 +50,11 @@ def extra_run(man, tier, seed):
     for prior, lik, kind, suf, b, pv, xs, ys, post, stat in meta:
         a0 = impl[b]
         if prior not in ('UnitPowerLaw', 'SymmetricDirichlet'):
-            ok, detail = cmp_tokens(a0, enc(pv), 1e-12, 1e-300)
+            # "equals the prior" up to the rounding of the update's own terms: the general formulas are evaluated with
+            # n = 0 (e.g. NormalGamma: s + r m^2 - r' m'^2 cancels terms of size r m^2), so the slack scales with products
+            # of the hyper-parameters, not with the field itself
+            mag = sum(abs(float(v)) for v in (pv if isinstance(pv, (list, tuple)) else [pv]) if isinstance(v, (int, float)) and not isinstance(v, bool)) + 1.0
+            ok, detail = cmp_tokens(a0, enc(pv), 1e-12, 1e-15 * mag ** 3)
             if not ok:
                 failures.append({'site': post, 'case': lines[b], 'impl': a0, 'expected': enc(pv) + ' (the prior)', 'observed': 'value', 'detail': detail})
         if any(a in ('PANIC', 'HANG') for a in impl[b:b + 3]):
